@@ -827,6 +827,32 @@ func C05(run *hx.Run) {
 			seeds = append(seeds, si)
 		}
 	}
+	// hostile by construction: layered DAGs (py/lattice.py); they come first in the case list, lightly mutated
+	nLattice := 0
+	if out, err := exec.Command("python3", filepath.Join(hx.VerifDir(), "py", "lattice.py"), dir).CombinedOutput(); err != nil {
+		run.Inconclusive("lattice seeds: " + clip(string(out), 300))
+	} else {
+		lat, _ := filepath.Glob(filepath.Join(dir, "lattice-*.sqlite"))
+		sort.Strings(lat)
+		var ls []*seedInfo
+		for _, f := range lat {
+			data, err := os.ReadFile(f)
+			if err != nil {
+				continue
+			}
+			si := &seedInfo{path: f, data: data, ps: 512, name: filepath.Base(f), hints: []string{"t", "ti"}}
+			for no := 1; no <= len(data)/512; no++ {
+				if p, err := hx.ParsePage(data, 512, no); err == nil {
+					si.pages = append(si.pages, p)
+				}
+			}
+			if len(si.pages) > 0 {
+				ls = append(ls, si)
+			}
+		}
+		nLattice = len(ls)
+		seeds = append(ls, seeds...) // in front: the generated-seed index arithmetic below is shifted by nLattice
+	}
 	if len(seeds) < 3 {
 		run.Inconclusive("too few seed images")
 		return
@@ -852,10 +878,16 @@ func C05(run *hx.Run) {
 		for i := 0; i < nCases; i++ {
 			s := seeds[rng.Intn(len(seeds))]
 			if i%3 != 0 { // generated seeds get most of the budget
-				s = seeds[rng.Intn(len(genProfiles))%len(seeds)]
+				s = seeds[(nLattice+rng.Intn(len(genProfiles)))%len(seeds)]
 			}
 			c := &c05Case{ID: i, Seed: s.path, Trunc: -1, Hints: s.hints}
 			nm := 1 + rng.Intn(3)
+			if nLattice > 0 && i < 12*nLattice {
+				// the lattices themselves, with one light mutation on top (a random byte mostly lands in unused space)
+				s = seeds[i%nLattice]
+				c = &c05Case{ID: i, Seed: s.path, Trunc: -1, Hints: s.hints}
+				nm = 1
+			}
 			for m := 0; m < nm; m++ {
 				ps, tr, kind := s.mutate(rng)
 				c.Patches = append(c.Patches, ps...)
